@@ -3,6 +3,7 @@ CONSTANT Thread = {t1, t2, t3}
 CONSTANT MaxOps = 2
 CONSTANT AtomicId = TRUE
 CONSTANT StackScratch = TRUE
+CONSTANT PerThreadInit = TRUE
 CONSTANT OwnedDrop = TRUE
 INVARIANT NonInterference
 INVARIANT NamesUnique
